@@ -584,6 +584,23 @@ func (c *Ctx) bvbin(op Op, a, b *Term) *Term {
 		if a == b {
 			return c.BVU(0, w)
 		}
+		// (x ^ k) ^ k = x
+		if a.Op == OBVXor {
+			if a.Args[0] == b {
+				return a.Args[1]
+			}
+			if a.Args[1] == b {
+				return a.Args[0]
+			}
+		}
+		if b.Op == OBVXor {
+			if b.Args[0] == a {
+				return b.Args[1]
+			}
+			if b.Args[1] == a {
+				return b.Args[0]
+			}
+		}
 	case OBVShl, OBVLshr, OBVAshr:
 		if b.IsConst() && b.Val.Sign() == 0 {
 			return a
